@@ -15,7 +15,21 @@ package gtree
 // functional statement about its output.
 
 // ---- channel protocols
+// splSent: the concatenation of the blocks the splitter has sent
+//@ ghost var splSent string
 //@ channel blockChan(b)
+//@   records splSent := splSent ++ b
+
+// specLinesText: the first i lines, each followed by a newline
+//@ spec gtree.specLinesText
+//@   requires rng: 0 <= i && i <= len(lines)
+//@   decreases i
+func specLinesText(lines []string, i int) string {
+	if i <= 0 {
+		return ""
+	}
+	return specLinesText(lines, i-1) + lines[i-1] + "\n"
+}
 
 //@ channel rootChan(n)
 //@   requires nonnil [C12]: n != nil && n.hierarchy == 1
@@ -32,7 +46,7 @@ package gtree
 //@ channel errChan(e)
 //@   requires err [C14]: e != nil
 //@   records errSent := true
-//@   receives errRecv := true
+//@   receives errRecv := errRecv || ok
 
 // ---- splitter (input_spliter.go)
 //@ func gtree.split
@@ -41,12 +55,18 @@ package gtree
 //@   carries errc: errChan
 //@   carries result0: blockChan
 //@   carries result1: errChan
-//@   modifies bufio.Scanner.pos, bufio.Scanner.failed, errSent
+//@   modifies bufio.Scanner.pos, bufio.Scanner.failed, errSent, splSent, ctxDoneSeen
+// the splitter goroutine, for runs in which it saw no cancellation: a failed scan is reported on the error channel (C14);
+// otherwise the blocks sent, concatenated, are the input lines (each with its newline): nothing is dropped or reordered
+// before the generator stage (C02, C15)
 //@ closure gtree.split#1
-//@   requires nn: ctx != nil && sc != nil && 0 <= sc.pos && sc.pos <= len(sc.lines)
-//@   modifies bufio.Scanner.pos, bufio.Scanner.failed, errSent
+//@   requires nn: ctx != nil && sc != nil && sc.pos == 0 && !sc.failed
+//@   modifies bufio.Scanner.pos, bufio.Scanner.failed, errSent, splSent, ctxDoneSeen
+//@   ensures reported [C14]: ctxDoneSeen == old(ctxDoneSeen) && sc.failed ==> errSent
+//@   ensures all [C02,C15]: ctxDoneSeen == old(ctxDoneSeen) && !sc.failed ==> splSent == old(splSent) ++ specLinesText(sc.lines, len(sc.lines))
 //@ loop gtree.split#1#1
 //@   invariant rng: 0 <= sc.pos && sc.pos <= len(sc.lines)
+//@   invariant sofar: ctxDoneSeen == old(ctxDoneSeen) ==> !sc.failed && splSent ++ block == old(splSent) ++ specLinesText(sc.lines, sc.pos)
 
 // ---- generator stage (root_generator.go)
 //@ func gtree.newRootGeneratorPipeline
@@ -58,10 +78,10 @@ package gtree
 //@   carries errc: errChan
 //@   carries result0: rootChan
 //@   carries result1: errChan
-//@   modifies Node.children, Node.parent, list.List.view, list.Element.backOf, counter.n, bufio.Scanner.pos, bufio.Scanner.failed, markdown.Parser.isSharpRoot, markdown.Parser.spaces, markdown.Parser.sep, errSent
+//@   modifies Node.children, Node.parent, list.List.view, list.Element.backOf, counter.n, bufio.Scanner.pos, bufio.Scanner.failed, markdown.Parser.isSharpRoot, markdown.Parser.spaces, markdown.Parser.sep, errSent, ctxDoneSeen
 //@ closure gtree.rootGeneratorPipeline.generate#1
 //@   requires nn: rg != nil && rg.nodeGenerator != nil && rg.nodeGenerator.parser != nil && md.parserOK(rg.nodeGenerator.parser) && ctx != nil
-//@   modifies Node.children, Node.parent, list.List.view, list.Element.backOf, counter.n, bufio.Scanner.pos, bufio.Scanner.failed, markdown.Parser.isSharpRoot, markdown.Parser.spaces, markdown.Parser.sep, errSent
+//@   modifies Node.children, Node.parent, list.List.view, list.Element.backOf, counter.n, bufio.Scanner.pos, bufio.Scanner.failed, markdown.Parser.isSharpRoot, markdown.Parser.spaces, markdown.Parser.sep, errSent, ctxDoneSeen
 //@ loop gtree.rootGeneratorPipeline.generate#1#1
 //@   invariant parser: md.parserOK(rg.nodeGenerator.parser)
 //@ func gtree.rootGeneratorPipeline.worker
@@ -70,7 +90,7 @@ package gtree
 //@   carries blocks: blockChan
 //@   carries rootc: rootChan
 //@   carries errc: errChan
-//@   modifies Node.children, Node.parent, list.List.view, list.Element.backOf, counter.n, bufio.Scanner.pos, bufio.Scanner.failed, markdown.Parser.isSharpRoot, markdown.Parser.spaces, markdown.Parser.sep, errSent
+//@   modifies Node.children, Node.parent, list.List.view, list.Element.backOf, counter.n, bufio.Scanner.pos, bufio.Scanner.failed, markdown.Parser.isSharpRoot, markdown.Parser.spaces, markdown.Parser.sep, errSent, ctxDoneSeen
 //@ loop gtree.rootGeneratorPipeline.worker#1
 //@   invariant ok: md.parserOK(rg.nodeGenerator.parser)
 //@ loop gtree.rootGeneratorPipeline.worker#2
@@ -86,16 +106,16 @@ package gtree
 //@   carries errc: errChan
 //@   carries result0: grownChan(dg.defaultGrowerSimple)
 //@   carries result1: errChan
-//@   modifies Node.brnch.value, Node.brnch.path, errSent
+//@   modifies Node.brnch.value, Node.brnch.path, errSent, ctxDoneSeen
 //@ closure gtree.defaultGrowerPipeline.grow#1
 //@   requires nn: dg != nil && dg.defaultGrowerSimple != nil && ctx != nil
-//@   modifies Node.brnch.value, Node.brnch.path, errSent
+//@   modifies Node.brnch.value, Node.brnch.path, errSent, ctxDoneSeen
 //@ func gtree.defaultGrowerPipeline.worker
 //@   requires nn: dg != nil && dg.defaultGrowerSimple != nil && ctx != nil && wg != nil
 //@   carries roots: rootChan
 //@   carries nodes: grownChan(dg.defaultGrowerSimple)
 //@   carries errc: errChan
-//@   modifies Node.brnch.value, Node.brnch.path, errSent
+//@   modifies Node.brnch.value, Node.brnch.path, errSent, ctxDoneSeen
 //@ func gtree.nopGrowerPipeline.grow
 //@   requires nn: ctx != nil
 //@   carries roots: rootChan
@@ -103,10 +123,10 @@ package gtree
 //@   carries errc: errChan
 //@   carries result0: grownChan(nil)
 //@   carries result1: errChan
-//@   modifies errSent
+//@   modifies errSent, ctxDoneSeen
 //@ closure gtree.nopGrowerPipeline.grow#1
 //@   requires nn: ctx != nil
-//@   modifies errSent
+//@   modifies errSent, ctxDoneSeen
 
 // ---- spreader stage (pipeline_tree_spreader.go)
 // text: the workers print one root at a time (the lock is not modelled); a writer error of spreadBranch must be reported
@@ -116,16 +136,16 @@ package gtree
 //@   carries roots: grownChan($g)
 //@   carries errc: errChan
 //@   carries result0: errChan
-//@   modifies out, wfail, defaultSpreaderSimple.w, errSent
+//@   modifies out, wfail, defaultSpreaderSimple.w, errSent, ctxDoneSeen
 //@ closure gtree.defaultSpreaderPipeline.spread#1
 //@   requires nn: ds != nil && ds.defaultSpreaderSimple != nil && ctx != nil
-//@   modifies out, wfail, defaultSpreaderSimple.w, errSent
+//@   modifies out, wfail, defaultSpreaderSimple.w, errSent, ctxDoneSeen
 //@ func gtree.defaultSpreaderPipeline.worker
 //@   requires nn: ds != nil && ds.defaultSpreaderSimple != nil && ctx != nil && wg != nil
 //@   carries roots: grownChan($g)
 //@   carries errc: errChan
 //@   ensures reported [C14]: wfail && !old(wfail) ==> errSent
-//@   modifies out, wfail, errSent
+//@   modifies out, wfail, errSent, ctxDoneSeen
 //@ loop gtree.defaultSpreaderPipeline.worker#1
 //@   invariant reported [C14]: wfail && !old(wfail) ==> errSent
 
@@ -137,14 +157,14 @@ package gtree
 //@   requires validating [C09,C07]: g != nil ==> g.enabledValidation
 //@   carries errc: errChan
 //@   carries result0: errChan
-//@   modifies out, wfail, counter.n, spText, errSent
+//@   modifies out, wfail, counter.n, spText, errSent, ctxDoneSeen
 //@   after make: spText := ""
 // (functional clause, per goroutine: what this goroutine hands to the writer is, root by root, the dry-run report
 // specDryRoot of the roots it received - counters reset per root; spText accumulates what is owed, as on the simple route)
 //@ closure gtree.colorizeSpreaderPipeline.spread#1
 //@   requires nn: cs != nil && cs.colorizeSpreaderSimple != nil && colorizeOK(cs.colorizeSpreaderSimple) && ctx != nil
 //@   requires start: spText == ""
-//@   modifies out, wfail, counter.n, spText, errSent
+//@   modifies out, wfail, counter.n, spText, errSent, ctxDoneSeen
 //@   after spreadBranch: spText := spText ++ specDryRoot(cs.colorizeSpreaderSimple.fileColor, cs.colorizeSpreaderSimple.dirColor, cs.colorizeSpreaderSimple.fileConsiderer.extensions, arg0)
 //@ loop gtree.colorizeSpreaderPipeline.spread#1#1
 //@   invariant ok: colorizeOK(cs.colorizeSpreaderSimple) && bw != nil && bw.under == w
@@ -157,11 +177,11 @@ package gtree
 //@   carries roots: grownChan($g)
 //@   carries errc: errChan
 //@   carries result0: errChan
-//@   modifies out, wfail, encTrace, encoders, errSent
+//@   modifies out, wfail, encTrace, encoders, errSent, ctxDoneSeen
 //@ applies formattedSpreadPipelineSpec to gtree.formattedSpreaderPipeline.spread[jsonNode], gtree.formattedSpreaderPipeline.spread[yamlNode], gtree.formattedSpreaderPipeline.spread[tomlNode]
 //@ contract formattedSpreadPipelineBody
 //@   requires nn: f != nil && f.encode != nil && f.formattedRoot != nil && ctx != nil
-//@   modifies out, wfail, encTrace, encoders, errSent
+//@   modifies out, wfail, encTrace, encoders, errSent, ctxDoneSeen
 //@   ensures once [C04]: encoders == old(encoders) + 1
 //@   ensures reported [C14]: wfail && !old(wfail) ==> errSent
 //@ applies formattedSpreadPipelineBody to gtree.formattedSpreaderPipeline.spread[jsonNode]#1, gtree.formattedSpreaderPipeline.spread[yamlNode]#1, gtree.formattedSpreaderPipeline.spread[tomlNode]#1
@@ -188,7 +208,7 @@ package gtree
 //@   requires nn: f != nil && f.encode != nil && f.formattedRoot != nil && ctx != nil
 //@   carries roots: grownChan($g)
 //@   carries result0: errChan
-//@   modifies out, wfail, encTrace, encoders, errSent
+//@   modifies out, wfail, encTrace, encoders, errSent, ctxDoneSeen
 
 // ---- mkdir stage (pipeline_tree_mkdirer.go): every root it receives comes from a validating grower (C07)
 //@ func gtree.defaultMkdirerPipeline.mkdir
@@ -197,15 +217,15 @@ package gtree
 //@   requires validating [C07]: g != nil ==> g.enabledValidation
 //@   carries errc: errChan
 //@   carries result0: errChan
-//@   modifies fsOps, fsFailed, errSent
+//@   modifies fsOps, fsFailed, errSent, ctxDoneSeen
 //@ closure gtree.defaultMkdirerPipeline.mkdir#1
 //@   requires nn: dm != nil && dm.defaultMkdirerSimple != nil && dm.defaultMkdirerSimple.fileConsiderer != nil && ctx != nil
-//@   modifies fsOps, fsFailed, errSent
+//@   modifies fsOps, fsFailed, errSent, ctxDoneSeen
 //@ func gtree.defaultMkdirerPipeline.worker
 //@   requires nn: dm != nil && dm.defaultMkdirerSimple != nil && dm.defaultMkdirerSimple.fileConsiderer != nil && ctx != nil && wg != nil
 //@   carries roots: grownChan($g)
 //@   carries errc: errChan
-//@   modifies fsOps, fsFailed, errSent
+//@   modifies fsOps, fsFailed, errSent, ctxDoneSeen
 
 // ---- verify stage (pipeline_tree_verifier.go)
 //@ func gtree.defaultVerifierPipeline.verify
@@ -214,15 +234,15 @@ package gtree
 //@   requires validating [C07,C08]: g != nil ==> g.enabledValidation
 //@   carries errc: errChan
 //@   carries result0: errChan
-//@   modifies maps, errSent
+//@   modifies maps, errSent, ctxDoneSeen
 //@ closure gtree.defaultVerifierPipeline.verify#1
 //@   requires nn: dv != nil && dv.defaultVerifierSimple != nil && ctx != nil
-//@   modifies maps, errSent
+//@   modifies maps, errSent, ctxDoneSeen
 //@ func gtree.defaultVerifierPipeline.worker
 //@   requires nn: dv != nil && dv.defaultVerifierSimple != nil && ctx != nil && wg != nil
 //@   carries roots: grownChan($g)
 //@   carries errc: errChan
-//@   modifies maps, errSent
+//@   modifies maps, errSent, ctxDoneSeen
 
 // ---- walk stage (pipeline_tree_walker.go): safety only. After a callback error a worker reports it and goes on with
 // the next root, and ten workers share the callback: "no callback after the first error" does not hold in the massive
@@ -233,16 +253,16 @@ package gtree
 //@   carries roots: grownChan($g)
 //@   carries errc: errChan
 //@   carries result0: errChan
-//@   modifies cbTrace, cbFailed, cbLastErr, cbAfterFail, errSent
+//@   modifies cbTrace, cbFailed, cbLastErr, cbAfterFail, errSent, ctxDoneSeen
 //@ closure gtree.defaultWalkerPipeline.walk#1
 //@   requires nn: dw != nil && dw.defaultWalkerSimple != nil && ctx != nil
-//@   modifies cbTrace, cbFailed, cbLastErr, cbAfterFail, errSent
+//@   modifies cbTrace, cbFailed, cbLastErr, cbAfterFail, errSent, ctxDoneSeen
 //@ func gtree.defaultWalkerPipeline.worker
 //@   requires nn: dw != nil && dw.defaultWalkerSimple != nil && ctx != nil && wg != nil
 //@   param callback follows walkCallback
 //@   carries roots: grownChan($g)
 //@   carries errc: errChan
-//@   modifies cbTrace, cbFailed, cbLastErr, cbAfterFail, errSent
+//@   modifies cbTrace, cbFailed, cbLastErr, cbAfterFail, errSent, ctxDoneSeen
 
 // ---- the tree (pipeline_tree.go)
 // pipelineTreeOK(t, cfg): t is the treePipeline that newTreePipeline builds for cfg.
@@ -260,10 +280,11 @@ package gtree
 //@ func gtree.treePipeline.handlePipelineErr
 //@   requires nn: ctx != nil
 //@   carries echs: errChan
-//@   modifies errRecv
+//@   modifies errRecv, ctxDoneSeen
 //@   ensures seen [C14,C12]: result == nil ==> errRecv == old(errRecv)
 //@ loop gtree.treePipeline.handlePipelineErr#loop1
 //@   invariant grp: eg != nil && ectx != nil && (!eg.failed ==> errRecv == old(errRecv))
 //@ closure gtree.treePipeline.handlePipelineErr#1
 //@   implements egTask
+//@   modifies ctxDoneSeen
 //@   requires idx: 0 <= i && i < len(echs) && ectx != nil
